@@ -13,7 +13,9 @@
 (* An add event is matched by Registration!Add with the logged outcome     *)
 (* (enabled only if the specification allows that outcome); a probe event  *)
 (* is matched if the observed tag is the one Registration!Expect gives.    *)
-(* The OUTCOME / PROBE lines only count what was asserted (evidence).      *)
+(* After a refused add (Registration!Refused) the run goes on: the probes  *)
+(* of the items of the earlier adds are matched like any other probe.      *)
+(* The OUTCOME / PROBE / KEPT lines only count what was asserted.          *)
 EXTENDS Registration, Json, IOUtils, TLCExt
 
 Rec == ndJsonDeserialize(IOEnv.TRACE)
@@ -35,10 +37,14 @@ TraceInit == Init /\ l = 1
 TraceNext ==
   \/ IsEv("new") /\ rt' = EmptyRt /\ valid' = TRUE /\ outcome' = "init"
   \/ IsEv("add") /\ Add(Ev.lib, Ev.out) /\ PrintT(<<"OUTCOME", outcome'>>)
+  (* the run goes on after an add that failed where the outcome was left open: nothing is asserted any more *)
+  \/ IsEv("add") /\ ~valid /\ Ev.out \in {"ok", "err"} /\ UNCHANGED <<rt, valid, outcome>> /\ PrintT(<<"OUTCOME", "unasserted">>)
   \/ IsEv("probe") /\ ProbeOk /\ UNCHANGED <<rt, valid, outcome>>
                     /\ PrintT(<<"PROBE", IF ~valid THEN "unasserted" ELSE
                                          LET e == Expect(rt, Ev.q) IN
                                          IF e = -3 THEN "open" ELSE IF e = -1 THEN "unusable" ELSE "tag">>)
+                    (* a probe of an item of an earlier add, asserted after an add that was refused *)
+                    /\ (valid /\ outcome = "Err" /\ Expect(rt, Ev.q) >= 0 => PrintT(<<"KEPT", Ev.q.kind>>))
 
 TraceSpec == TraceInit /\ [][TraceNext]_tvars
 
